@@ -56,7 +56,7 @@ CFG = {
                  "C02_address_total", "C02_byron_total", "C02_third_element_total", "C02_bounded_bytes_total", "C02_from_hex_total",
                  "C02_hash_total", "C02_xprv_total", "C02_nint_writer_total", "C02_json_number_total", "C02_emip3_total",
                  "C02_witness_special_total", "C02_native_script_schema_total", "C02_legacy_panics_refuted", "C02_huge_length_refuted",
-                 "C02_alloc_only_panic"],
+                 "C02_only_allocation_panics", "C02_alloc_only_panic"],
     "allowed_axioms": [],
     "compare": _agree,
     "nontrivial": _nontrivial,
